@@ -1,4 +1,4 @@
-import Wip.ModsStages
+import Cutadapt.Proofs.ModsStages
 /-! Paired-end modifiers: `PairedModifierWrapper` and `PairedReverseComplementer`. Core Lean only. -/
 namespace Cutadapt
 open Cutadapt.Adapters Cutadapt.Qualtrim
